@@ -6,8 +6,9 @@ stdin : {"groups": [ {"id", "wavelength": OPERAND, "incident_beam": OPERAND(vect
                       "R": ROT, "U": ROT, "B": {"values": [9 hex floats row-major], "unit": str},
                       "Q": optional OPERAND(vector3) used for hkl instead of the computed Q vector} ]}
   OPERAND as in kernels_impl.py;  ROT = {"kind": "quat"|"matrix", "values": [[4 or 9 hex floats], ...], "dim": null|"p"}
-  optional per group  "graph": {"start": "wavelength"|"tof", "customise": null|"override-ub"|"override-Q_vec"|"override-hkl"|"clear"}:
-  the same quantities through the GRAPH entry points conversion.graph.tof.elastic_Q_vec / elastic_hkl + transform_coords
+  optional per group  "graph": {"start": "wavelength"|"tof", "via": "specific"|"elastic",
+                                "customise": null|"override-ub"|"override-Q_vec"|"override-hkl"|"clear"}:
+  the same quantities through the GRAPH entry points conversion.graph.tof.elastic_Q_vec / elastic_hkl (or elastic) + transform_coords
   (result under "graph", same layout); afterwards the CALLER's copies of the returned graphs are modified as named -
   a caller may do with a returned dict what it likes, later calls must not see it.
   Groups are evaluated in the given order in ONE process (call histories: see props/C08.py).
@@ -88,8 +89,12 @@ def via_graph(spec, lam, bi, bf, R, U, B, Qin):
     n = bf.sizes['p']
     coords = {'wavelength': lam, 'incident_beam': bi, 'scattered_beam': bf, 'sample_rotation': R, 'u_matrix': U, 'b_matrix': B}
     da = sc.DataArray(sc.zeros(dims=['p'], shape=[n]), coords={k: v.copy() for k, v in coords.items()})
-    gq = gtof.elastic_Q_vec(spec['start'])
-    gh = gtof.elastic_hkl(spec['start'])
+    if spec.get('via') == 'elastic':      # the full elastic graph holds the same nodes
+        gq = gtof.elastic(spec['start'])
+        gh = gtof.elastic(spec['start'])
+    else:
+        gq = gtof.elastic_Q_vec(spec['start'])
+        gh = gtof.elastic_hkl(spec['start'])
     opts = {'rename_dims': False, 'keep_inputs': True, 'keep_intermediate': True, 'keep_aliases': True}
     try:
         dq = da.transform_coords(['Q_vec', 'Qx', 'Qy', 'Qz'], graph=gq, **opts)
